@@ -19,6 +19,11 @@ type Pk = DefiniteDescriptorKey;
 
 pub fn key_id(u: &Universe, pk: &Pk) -> i64 {
     let p = pk.to_public_key();
+    if pk.is_x_only_key() {
+        // x-only keys carry no parity: identify by the x coordinate
+        let x = pk.to_x_only_pubkey();
+        return (1..=MAX_KEYS).find(|&k| u.xonly[k] == x).map(|k| k as i64).unwrap_or(0);
+    }
     (1..=MAX_KEYS).find(|&k| u.pks[k] == p.inner).map(|k| k as i64).unwrap_or(0)
 }
 
